@@ -35,7 +35,7 @@ func runC17(c *Ctx) {
 	geom := c.RequireFn(c.P.Func("container/bytes", "GetBlocksInSegment"), "bytes.GetBlocksInSegment")
 	arrange := c.RequireFn(c.P.MethodOf(blocks, "ArrangeBlock"), "Blocks.ArrangeBlock")
 	free := c.RequireFn(c.P.MethodOf(blocks, "FreeBlock"), "Blocks.FreeBlock")
-	blockFn := c.RequireFn(c.P.MethodOf(blocks, "Block"), "Blocks.Block")
+	c.RequireFn(c.P.MethodOf(blocks, "Block"), "Blocks.Block")
 	mutex := c.oneField("blocks.mutex", blocks, func(f *types.Var) bool { return ir.IsNamed(f.Type(), "sync", "Mutex") })
 	avail := c.oneField("blocks.available", blocks, func(f *types.Var) bool { return types.Identical(f.Type(), types.Typ[types.Int32]) })
 	bufIface := c.P.LookupType("container/bytes", "Buffer")
@@ -330,60 +330,83 @@ func runC17(c *Ctx) {
 	c.R.Floor("C17.R4", 4)
 
 	var perSeg, blkSize *types.Var
-	// blkSize = int field passed as size to Buffer(); perSeg = int field used as divisor of idx in Block
-	ir.Instrs(blockFn, func(in ssa.Instruction) {
-		if call, ok := in.(*ssa.Call); ok && call.Call.IsInvoke() && call.Call.Method.Name() == "Buffer" {
-			blkSize = ir.LoadedField(call.Call.Args[1])
+	// blkSize = int field passed as size to Buffer(); perSeg = int field that divides an index parameter
+	for _, fn := range pkgFns {
+		if fn.Signature.Recv() == nil || namedOf(fn.Signature.Recv().Type()) != blocks {
+			continue
 		}
-		if bo, ok := in.(*ssa.BinOp); ok && bo.Op == token.QUO && len(blockFn.Params) == 2 && ir.Resolve(bo.X) == ssa.Value(blockFn.Params[1]) {
-			perSeg = ir.LoadedField(bo.Y)
-		}
-	})
+		ir.Instrs(fn, func(in ssa.Instruction) {
+			if call, ok := in.(*ssa.Call); ok && call.Call.IsInvoke() && call.Call.Method.Name() == "Buffer" {
+				if f := ir.LoadedField(call.Call.Args[1]); f != nil {
+					blkSize = f
+				}
+			}
+			if bo, ok := in.(*ssa.BinOp); ok && bo.Op == token.QUO {
+				if _, isParam := ir.Resolve(bo.X).(*ssa.Parameter); isParam {
+					if f := ir.LoadedField(bo.Y); f != nil {
+						perSeg = f
+					}
+				}
+			}
+		})
+	}
 	if perSeg == nil || blkSize == nil {
-		c.Fatalf("role blocks-per-segment / block-size fields could not be resolved from Block()")
+		c.Fatalf("role blocks-per-segment / block-size fields could not be resolved")
 	}
 	c.Role("blocks.perSegment", perSeg.Name(), perSeg.Pos())
 	c.Role("blocks.blockSize", blkSize.Name(), blkSize.Pos())
 
-	// R5 bounds siblings
+	// R5 bounds siblings: every function that derives a segment number from an index parameter rejects idx<0 on the
+	// parameter itself (division truncates toward zero: testing the segment number lets -1..-(n-1) through) and
+	// segm >= segments, before an offset is computed or a success is returned
 	{
-		segments := c.fieldComparedIn(blockFn, blocks)
+		segments := c.fieldComparedInAny(pkgFns, blocks, perSeg)
 		for _, fn := range pkgFns {
-			if fn.Signature.Recv() == nil || namedOf(fn.Signature.Recv().Type()) != blocks || len(fn.Params) != 2 {
+			if fn.Signature.Recv() == nil || namedOf(fn.Signature.Recv().Type()) != blocks {
 				continue
 			}
-			if !types.Identical(fn.Params[1].Type(), types.Typ[types.Int]) {
-				continue
-			}
-			// functions that compute a segment number idx / blksInSegm
 			var segm *ssa.BinOp
+			var idxP *ssa.Parameter
 			ir.Instrs(fn, func(in ssa.Instruction) {
-				if bo, ok := in.(*ssa.BinOp); ok && bo.Op == token.QUO && ir.Resolve(bo.X) == ssa.Value(fn.Params[1]) {
-					segm = bo
+				if bo, ok := in.(*ssa.BinOp); ok && bo.Op == token.QUO && ir.LoadedField(bo.Y) == perSeg {
+					if p, isParam := ir.Resolve(bo.X).(*ssa.Parameter); isParam {
+						segm, idxP = bo, p
+					}
 				}
 			})
 			if segm == nil {
 				continue
 			}
-			// every multiplication (offset computation) must be under segm < segments and idx >= 0
+			// the accepting continuation: every use of the segment number in arithmetic (offsets) or in a returned value
+			var uses []ssa.Instruction
 			ir.Instrs(fn, func(in ssa.Instruction) {
-				bo, ok := in.(*ssa.BinOp)
-				if !ok || bo.Op != token.MUL || (ir.LoadedField(bo.X) != blkSize && ir.LoadedField(bo.Y) != blkSize) {
-					return
+				switch x := in.(type) {
+				case *ssa.BinOp:
+					if (x.Op == token.MUL || x.Op == token.ADD) && (ir.Resolve(x.X) == ssa.Value(segm) || ir.Resolve(x.Y) == ssa.Value(segm)) {
+						uses = append(uses, in)
+					}
+				case *ssa.Return:
+					for _, rv := range x.Results {
+						if ir.Resolve(rv) == ssa.Value(segm) {
+							uses = append(uses, in)
+						}
+					}
 				}
-				upper := hasFactCmp(bo.Block(), func(cm ir.Cmp) bool {
+			})
+			for _, u := range uses {
+				upper := hasFactCmp(u.Block(), func(cm ir.Cmp) bool {
 					if ir.Resolve(cm.X) != ssa.Value(segm) || cm.Op != token.LSS {
 						return false
 					}
 					_, isSeg := loadOfField(cm.Y, segments)
 					return isSeg
 				})
-				lower := hasFactCmp(bo.Block(), func(cm ir.Cmp) bool {
+				lower := hasFactCmp(u.Block(), func(cm ir.Cmp) bool {
 					k, isC := ir.ConstInt(cm.Y)
-					return ir.Resolve(cm.X) == ssa.Value(fn.Params[1]) && isC && ((cm.Op == token.GEQ && k == 0) || (cm.Op == token.GTR && k == -1))
+					return ir.Resolve(cm.X) == ssa.Value(idxP) && isC && ((cm.Op == token.GEQ && k == 0) || (cm.Op == token.GTR && k == -1))
 				})
-				c.Decide("C17.R5", fn, "offset computed only for an index in range", bo, upper && lower, "an offset is computed although the segment/index range test (segm >= segments || idx < 0) does not dominate it")
-			})
+				c.Decide("C17.R5", fn, "segment number used only for an index in range", u, upper && lower, "a segment number derived from the index is used although idx >= 0 (tested on the index itself) and segm < segments do not both dominate the use: small negative indices map to segment 0 and address the bookkeeping header as if it were a data block")
+			}
 		}
 	}
 	c.R.Floor("C17.R5", 2)
@@ -544,4 +567,29 @@ func loopEarlyExits(fn *ssa.Function) []ssa.Instruction {
 		}
 	}
 	return res
+}
+
+// fieldComparedInAny returns the int field (other than perSeg) that some method compares a segment number against.
+func (c *Ctx) fieldComparedInAny(fns []*ssa.Function, t *types.Named, perSeg *types.Var) *types.Var {
+	var res []*types.Var
+	for _, fn := range fns {
+		ir.Instrs(fn, func(in ssa.Instruction) {
+			bo, ok := in.(*ssa.BinOp)
+			if !ok || (bo.Op != token.GEQ && bo.Op != token.LSS) {
+				return
+			}
+			q, isQ := ir.Resolve(bo.X).(*ssa.BinOp)
+			if !isQ || q.Op != token.QUO || ir.LoadedField(q.Y) != perSeg {
+				return
+			}
+			if f := ir.LoadedField(bo.Y); f != nil && types.Identical(f.Type(), types.Typ[types.Int]) {
+				res = appendUniq(res, f)
+			}
+		})
+	}
+	if len(res) != 1 {
+		c.Fatalf("role blocks.segments: expected one field used as upper bound of the segment number, found %d", len(res))
+	}
+	c.Role("blocks.segments", res[0].Name(), res[0].Pos())
+	return res[0]
 }
